@@ -231,7 +231,7 @@ def analyse(scn, out):
 
 globals().update(acct_prop.make(
     'C08', components=['lifecycle.'], clauses=['C08.'], gen=gen, analyser=analyse, prelude=PRELUDE,
-    coq=['Model/Calendar.v', 'Model/EventLoop.v', 'Model/Phases.v', 'Proofs/CalendarFacts.v', 'Proofs/EventLoopFacts.v', 'Gen/ApiPhases.v'], gen_mods=['ApiPhases'],
+    coq=['Model/Calendar.v', 'Model/EventLoop.v', 'Model/Phases.v', 'Proofs/CalendarFacts.v', 'Proofs/EventLoopFacts.v', 'Proofs/PhasesFacts.v', 'Gen/ApiPhases.v', 'Gen/Listeners.v'], gen_mods=['ApiPhases', 'Listeners'],
     rule=('random calendars (holidays, gaps), single-day ranges, ranges starting / ending on non-trading days, daily and minute frequency (stock: 240 '
           'bars a day, futures: the data source\'s minutes), strategies with any subset of callbacks, universe changes in the middle of the day, universes whose members are de-listed / expire inside the range, '
           'order calls in init / before_trading / after_trading and from handlers of those phases\' events and of the order events the broker raises while it processes them; a case is one whole run: the published BEFORE_TRADING / OPEN_AUCTION / BAR / '
